@@ -44,6 +44,7 @@ type source struct {
 	sent    int
 	pending bool
 	closed  bool
+	retract chan struct{}
 }
 
 func Run(rc *core.RunCtx) {
@@ -60,7 +61,7 @@ func Run(rc *core.RunCtx) {
 	u.Stream = func(ctx context.Context, path string, chanType reflect.Type, fd *ast.FieldDefinition) (reflect.Value, error) {
 		ch := reflect.MakeChan(reflect.ChanOf(reflect.BothDir, chanType.Elem()), 0)
 		smu.Lock()
-		src = &source{ch: ch, elem: chanType.Elem(), gql: fd.Type, path: path, ctx: ctx}
+		src = &source{ch: ch, elem: chanType.Elem(), gql: fd.Type, path: path, ctx: ctx, retract: make(chan struct{})}
 		smu.Unlock()
 		return ch.Convert(chanType), nil
 	}
@@ -117,6 +118,12 @@ func Run(rc *core.RunCtx) {
 		return r
 	})
 
+	// lock grants: which goroutine wins a contended transport mutex is a tape decision
+	transport.SimLockHook = func(free func() bool) {
+		w.Park("lock", core.GoroutineRole(), free)
+	}
+	defer func() { transport.SimLockHook = nil }()
+
 	ctx, cancel := context.WithCancel(context.Background())
 	defer cancel()
 	body, _ := json.Marshal(map[string]any{"query": op.Query, "variables": op.Vars, "operationName": op.OpName})
@@ -139,7 +146,9 @@ func Run(rc *core.RunCtx) {
 	idleAdvances := 0
 	finished := false
 	splits := 0
-	menu := []time.Duration{interval, interval - time.Microsecond, interval + time.Microsecond, interval / 2, 2 * interval, time.Microsecond}
+	// never more than one tick per advance: a second tick would queue up behind the parked ticker
+	// goroutine and later tie with its stop signal in a select that cannot be seeded
+	menu := []time.Duration{interval, interval - time.Microsecond, interval + time.Microsecond, interval / 2, time.Microsecond}
 	for step := 0; step < 600; step++ {
 		synctest.Wait()
 		w.NextStep()
@@ -159,6 +168,9 @@ func Run(rc *core.RunCtx) {
 		var acts []action
 		items := w.Parked()
 		for _, it := range items {
+			if it.Kind == "lock" && !it.Info.(func() bool)() {
+				continue // mutex held: no grant
+			}
 			acts = append(acts, action{kind: "release", it: it})
 		}
 		smu.Lock()
@@ -172,8 +184,28 @@ func Run(rc *core.RunCtx) {
 			}
 		}
 		workPending := len(acts) > 0
-		if interval > 0 {
+		// the clock only advances while gqlgen's ticker goroutine waits at its select: a tick that
+		// piles up behind a parked write would later tie with ctx.Done() in a select whose
+		// outcome Go does not let us seed
+		tickerBusy := false
+		for _, it := range items {
+			if wi, ok := it.Info.(simhttp.WriteInfo); ok && core.IsTickerRole(wi.Role) {
+				tickerBusy = true
+			}
+			if it.Kind == "lock" && core.IsTickerRole(it.Key) {
+				tickerBusy = true
+			}
+		}
+		if interval > 0 && !tickerBusy {
 			acts = append(acts, action{kind: "sleep"})
+		}
+		// an emission the consumer did not take within one step is withdrawn (it is not waiting at
+		// its select); a send left pending would tie with a later cancellation
+		if s != nil && s.pending {
+			close(s.retract)
+			synctest.Wait()
+			s.retract = make(chan struct{})
+			continue
 		}
 		if allowDisconnect && !disconnected && workPending {
 			acts = append(acts, action{kind: "disconnect"})
@@ -227,12 +259,17 @@ func Run(rc *core.RunCtx) {
 				val = reflect.ValueOf(n)
 			}
 			w.Logf("emit", s.path, "%d", n)
+			retract := s.retract
 			go func() {
-				reflect.Select([]reflect.SelectCase{
+				chosen, _, _ := reflect.Select([]reflect.SelectCase{
 					{Dir: reflect.SelectSend, Chan: s.ch, Send: val},
-					{Dir: reflect.SelectRecv, Chan: reflect.ValueOf(s.ctx.Done())},
+					{Dir: reflect.SelectRecv, Chan: reflect.ValueOf(retract)},
 				})
 				smu.Lock()
+				if chosen != 0 {
+					s.sent--
+					w.Count("emissions_withdrawn")
+				}
 				s.pending = false
 				smu.Unlock()
 			}()
@@ -245,8 +282,18 @@ func Run(rc *core.RunCtx) {
 			if a.d <= 0 {
 				a.d = time.Microsecond
 			}
-			w.Logf("sleep", "", "%s", a.d)
-			time.Sleep(a.d)
+			slept := core.SleepChunked(a.d, interval, synctest.Wait, func() bool {
+				for _, it := range w.Parked() {
+					if wi, ok := it.Info.(simhttp.WriteInfo); ok && core.IsTickerRole(wi.Role) {
+						return true
+					}
+					if it.Kind == "lock" && core.IsTickerRole(it.Key) {
+						return true
+					}
+				}
+				return false
+			})
+			w.Logf("sleep", "", "%s", slept)
 			w.Count("clock_advances")
 		case "disconnect":
 			disconnected = true
@@ -432,18 +479,19 @@ func Run(rc *core.RunCtx) {
 	}
 	// the connection is gone: whatever is still parked in a write fails, resolvers return
 	wr.Disconnect()
-	for i := 0; i < 100; i++ {
+	for i := 0; i < 3000; i++ {
 		synctest.Wait()
-		items := w.Parked()
-		if len(items) == 0 {
+		if w.NumParked() == 0 {
 			break
 		}
-		for _, it := range items {
+		w.NextStep()
+		if !w.ReleaseNext(func(it *core.Item) any {
 			if it.Kind == "write" {
-				w.Release(it, simhttp.WriteDecision{Fail: true})
-			} else {
-				w.Release(it, nil)
+				return simhttp.WriteDecision{Fail: true}
 			}
+			return nil
+		}) {
+			break
 		}
 	}
 	leaks := core.Leaks()
